@@ -1,6 +1,6 @@
 (* C17 — regional_maximum with ties allowed: the shifted-slice loops with big_mask / min_mask
-   compute exactly the pixels whose structure neighbours (centre excluded) all lie inside image
-   and mask and are not larger. *)
+   compute exactly the pixels that lie inside the mask and whose structure neighbours all lie
+   inside image and mask and are not larger. *)
 From Coq Require Import ZArith List Bool Lia ZifyBool.
 From Centro Require Import Base.LocalMaxGrid Model.LocalMax Spec.LocalMaxSpec Proofs.LocalMaxIlm.
 Import ListNotations.
@@ -102,10 +102,18 @@ Proof.
   { unfold h1. split; [apply Z.div_pos; lia|]. apply Z.div_le_upper_bound; lia. }
   replace ((Z.of_nat (length image) <? h0) || (Z.of_nat (length (hd [] image)) <? h1)) with false by (subst h w; lia).
   f_equal.
+  assert (R1 : match mask with
+               | None => tab h w (fun _ _ => true)
+               | Some m => tab h w (fun y x => if negb (get2 false m y x) then false
+                                               else get2 false (tab h w (fun _ _ => true)) y x)
+               end = tab h w (mask_at mask)).
+  { destruct mask as [m|]; [|reflexivity]. apply tab_ext. intros y x Hy Hx. cbn [mask_at].
+    rewrite get2_tab by assumption. now destruct (get2 false m y x). }
+  fold h w. rewrite R1.
   rewrite (rm_fold_spec image mask st h0 h1) by
     (try (subst h w; lia); intros ij Hij; apply in_flat_map in Hij; destruct Hij as (i & Hi & Hij);
      apply in_map_iff in Hij; destruct Hij as (j & <- & Hj); apply In_zrange in Hi, Hj; cbn [fst snd]; lia).
-  apply tab_ext. intros y x _ _. cbn [andb]. unfold reg_max_b.
+  apply tab_ext. intros y x _ _. unfold reg_max_b. f_equal.
   rewrite forallb_flat_map. apply forallb_ext'. intros i. rewrite forallb_map. apply forallb_ext'. intros j.
   reflexivity.
 Qed.
@@ -113,13 +121,14 @@ Qed.
 Lemma reg_max_b_spec image mask st y x :
   reg_max_b image mask st y x = true <-> reg_max_at image mask st y x.
 Proof.
-  unfold reg_max_b, reg_max_at, zlen. cbv zeta. rewrite forallb_forall. split.
-  - intros A i j Hi Hj C S. specialize (A i (proj2 (In_zrange _ _) Hi)). rewrite forallb_forall in A.
+  unfold reg_max_b, reg_max_at, zlen. cbv zeta. rewrite andb_true_iff, forallb_forall.
+  split; intros [M0 A]; (split; [exact M0|]).
+  - intros i j Hi Hj C S. specialize (A i (proj2 (In_zrange _ _) Hi)). rewrite forallb_forall in A.
     specialize (A j (proj2 (In_zrange _ _) Hj)). rewrite S in A.
     replace ((i =? Z.of_nat (length st) / 2) && (j =? Z.of_nat (length (hd [] st)) / 2)) with false in A by lia.
     cbn [negb andb implb] in A. unfold nb_ok, zlen in A.
     rewrite !andb_true_iff in A. lia.
-  - intros A i Hi. apply forallb_forall. intros j Hj. apply In_zrange in Hi, Hj.
+  - intros i Hi. apply forallb_forall. intros j Hj. apply In_zrange in Hi, Hj.
     match goal with |- implb ?c ?d = true => destruct c eqn:C; [cbn [implb]|reflexivity] end.
     rewrite andb_true_iff, negb_true_iff in C. destruct C as [C S].
     destruct (A i j Hi Hj) as (I1 & M & L); [lia | exact S |].
